@@ -33,7 +33,9 @@ OPEN = open_ids(ID)
 
 NAMES = ["a", "ab", "a/b", "a/b/c", "a/bc", "d e", "x+y", "q.r", "z(1)", "m", "m/n", "Drafts", "INBOX", "inbox",
          # SQL GLOB / LIKE metacharacters in names (seeded/C17-2): g[1] has a child, g? has none but "gx/k" would match it as a glob
-         "g[1]", "g[1]/k", "g?", "gx/k", "p_q", "pxq/k"]
+         "g[1]", "g[1]/k", "g?", "gx/k", "p_q", "pxq/k",
+         # an inferior whose path repeats the name of its superior (seeded/C17-3: str.replace instead of a prefix swap)
+         "a/a", "m/m", "m/nm"]
 SPECIAL = ["Junk", "Archive", "Sent Messages", "Drafts", "Deleted Messages"]
 PATTERNS = ["*", "%", "g%", "p%", "a%", "a*", "%/%", "a/%", "a/*", "*b", "%b", "a/b", "a", "INBOX", "inbox", "InBoX", "IN%", "d%", "x+y", "q%r", "qXr", "z(1)", "%/b/%", "m/%", "*/n", "D*", "%e*"]
 
